@@ -88,6 +88,10 @@ type Case struct {
 	Procs         int     `json:"procs,omitempty"` // plugin instances sharing the pipeline name, as the processors of one pipeline do (0 = 1)
 	Steps         []Step  `json:"steps"`
 	MetaKey       *string `json:"meta_key,omitempty"` // second run without the events of this throttle key
+	// ExpirationS > 0: limiter_expiration in seconds ("unused limiters are removed"); 0 = practically never.
+	// A limiter whose key keeps arriving with gaps shorter than the expiration must keep its counts; once a
+	// key has been silent for about the expiration the oracle stops judging it (it may or may not be gone).
+	ExpirationS int `json:"expiration_s,omitempty"`
 }
 
 // ------------------------------------------------------------------ generator
@@ -165,6 +169,9 @@ func gen(t *rapid.T) Case {
 	}
 	I, N := c.IntervalMs, int64(c.BucketsCount)
 	c.Procs = rapid.SampledFrom([]int{1, 1, 2, 3}).Draw(t, "procs")
+	if rapid.IntRange(0, 3).Draw(t, "has_expiration") == 0 {
+		c.ExpirationS = rapid.SampledFrom([]int{3, 5, 20, 120}).Draw(t, "expiration_s")
+	}
 
 	c.DefaultKind = genKind(t, "default_kind")
 	hasDefDist := rapid.IntRange(0, 3).Draw(t, "default_has_dist") == 0
@@ -216,7 +223,13 @@ func gen(t *rapid.T) Case {
 	for i := 0; i < nSteps; i++ {
 		if rapid.IntRange(0, 99).Draw(t, "is_sleep") < 22 {
 			var d int64
-			switch rapid.IntRange(0, 7).Draw(t, "sleep_shape") {
+			shapeMax := 7
+			if c.ExpirationS > 0 {
+				shapeMax = 10
+			}
+			switch rapid.IntRange(0, shapeMax).Draw(t, "sleep_shape") {
+			case 8, 9, 10: // shorter than the limiter expiration: a key that keeps arriving stays "used"
+				d = int64(rapid.IntRange(1, (c.ExpirationS-2)*1000-1).Draw(t, "sleep_under_expiration"))
 			case 0, 1: // inside a bucket
 				d = int64(rapid.IntRange(1, int(min64(I, 1<<30))).Draw(t, "sleep_small"))
 			case 2: // exactly one interval
@@ -366,7 +379,10 @@ func configJSON(c Case) []byte {
 		"limiter_backend":    "memory",
 		"buckets_count":      c.BucketsCount,
 		"bucket_interval":    fmt.Sprintf("%dms", c.IntervalMs),
-		"limiter_expiration": "1000000h", // eviction is documented and not part of the property
+		"limiter_expiration": "1000000h", // eviction of unused limiters is documented and not part of the property
+	}
+	if c.ExpirationS > 0 {
+		m["limiter_expiration"] = fmt.Sprintf("%ds", c.ExpirationS)
 	}
 	if c.DefaultDist != nil {
 		m["limit_distribution"] = distJSON(c.DefaultDist)
@@ -646,9 +662,11 @@ func floorDiv(a, b int64) int64 {
 }
 
 type evalInfo struct {
-	exceeded bool // some event arrived when its bucket was already full
-	oldSlot  bool // an event was booked into a non-newest bucket of the window
-	remapped bool // an out-of-window time was booked into the newest bucket
+	keptAlive       bool // a limiter was in use (gaps below the expiration) for longer than limiter_expiration
+	possiblyExpired bool // a key was silent for about limiter_expiration: not judged from there on
+	exceeded        bool // some event arrived when its bucket was already full
+	oldSlot         bool // an event was booked into a non-newest bucket of the window
+	remapped        bool // an out-of-window time was booked into the newest bucket
 	// observation, not asserted: with a distribution the bucket's passes exceeded the plain limit because every
 	// share is rounded on its own (e.g. limit 1, ratios 0.5/0.5 -> shares 1+1); the property only bounds the
 	// total by the sum of the shares and the README does not say how shares are rounded
@@ -661,6 +679,7 @@ func judge(o *vkit.Outcome, c Case, steps []Step, res *execResult, info *evalInf
 	I := c.IntervalMs * 1_000_000
 	N := int64(c.BucketsCount)
 	state := map[bucketKey]*counters{}
+	lastUse, firstUse, possiblyGone := map[limKey]int64{}, map[limKey]int64{}, map[limKey]bool{}
 	for i, s := range steps {
 		if s.SleepMs > 0 {
 			continue
@@ -694,6 +713,26 @@ func judge(o *vkit.Outcome, c Case, steps []Step, res *execResult, info *evalInf
 			key = s.Fields[c.ThrottleField] // missing field and "" are the same "no key" budget
 		}
 		bk := bucketKey{limKey{ri, key}, id}
+		if c.ExpirationS > 0 {
+			// limiter_expiration: "time interval after which unused limiters are removed". The maintenance
+			// runs every second and stamps a use with the time of the last run, so a limiter is certainly
+			// kept while its key arrives with gaps below expiration-1s (2 s margin here).
+			lk := bk.lim
+			prev, used := lastUse[lk]
+			lastUse[lk] = res.nowMs[i]
+			if !used {
+				firstUse[lk] = res.nowMs[i]
+			} else if res.nowMs[i]-prev >= int64(c.ExpirationS-2)*1000 {
+				possiblyGone[lk] = true
+				info.possiblyExpired = true
+			}
+			if possiblyGone[lk] {
+				continue
+			}
+			if res.nowMs[i]-firstUse[lk] > int64(c.ExpirationS+1)*1000 {
+				info.keptAlive = true
+			}
+		}
 		amount := int64(1)
 		if sp.kind == "size" {
 			amount = int64(res.sizes[i])
@@ -962,6 +1001,12 @@ func run(c Case) *vkit.Outcome {
 	vkit.ClassN(P, "events-discarded", nEvents-nPass)
 	if info.exceeded {
 		o.Class("limit-exceeded")
+	}
+	if info.keptAlive {
+		o.Class("limiter-in-use-longer-than-expiration")
+	}
+	if info.possiblyExpired {
+		o.Class("key-silent-for-expiration:not-judged-afterwards")
 	}
 	if crossed >= int64(c.BucketsCount) {
 		o.Class("window-crossed")
